@@ -213,7 +213,8 @@ def configs(m, n, which, dense=False):
 
 
 def graddrop_closure(cfgs, n):
-    """Replace GradDrop configurations by one per distinct permutation of the draw U1 (S_n-closed set)."""
+    """Replace the GradDrop configurations by the leak-carrying one under every distinct permutation of the draw U1
+    (an S_n-closed set of draws, so that the transported configuration of a member is again in the table)."""
     out = [c for c in cfgs if c["name"] != "GradDrop"]
     seen = set()
     for perm in itertools.permutations(range(n)):
@@ -222,7 +223,7 @@ def graddrop_closure(cfgs, n):
             continue
         seen.add(tuple(U))
         for c in cfgs:
-            if c["name"] == "GradDrop" and c["U"] == U1[:n]:
+            if c["name"] == "GradDrop" and c["U"] == U1[:n] and c["p"] is not None:
                 out.append(dict(c, U=U))
     return out
 
@@ -398,24 +399,76 @@ def run_orbit(case, ctx):
                 out = ctx.call(cfg, M)
                 if out is not None and base_checks(ctx, cfg, M, preds[kb], out):
                     table[(kb, K.cfg_key(cfg))] = out
+        # vectorised comparison of the recorded executions: X[kb] = outputs of all configurations on member kb
+        keys = [K.cfg_key(c) for c in cfgs]
+        kidx = {k: i for i, k in enumerate(keys)}
+        nc = len(cfgs)
+        gram = np.array([c["name"] in K.GRAMIAN_BASED for c in cfgs])
+        X, valid, tol, status, nonzero, reason = {}, {}, {}, {}, {}, {}
         for kb, M in members.items():
-            for src, sg in elems:
-                pure = all(v > 0 for v in sg)
-                M2 = K.apply_cols(M, src, sg)
-                kb2 = M2.tobytes()
+            pr = preds[kb]
+            Xm, vm, tm, st = np.full((nc, n), np.nan), np.zeros(nc, bool), np.ones(nc), np.zeros(nc, int)
+            rs = [None] * nc
+            for i, cfg in enumerate(cfgs):
+                out = table.get((kb, keys[i]))
+                if out is None:
+                    continue  # the exception / nonfinite output was already reported
+                Xm[i], vm[i] = out[0], True
+                tm[i] = TOL_BY_AGG.get(cfg["name"], TOL) * max(pr.s, 1e-300) * K.weights_scale(out[1], out[0], pr.s)
+                adm = pr.admissible(cfg, True)
+                rs[i] = adm
+                st[i] = 0 if adm is None else (3 if adm == "zero-direction" else (2 if adm == "mgda-tie" else 1))
+            if np.any(st == 2):
+                raise RuntimeError("MGDA tie predicate consulted for an exact transformation")
+            X[kb], valid[kb], tol[kb], status[kb], nonzero[kb] = Xm, vm, tm, st, np.any(Xm != 0, axis=1) & vm
+            reason[kb] = rs
+        maxr = {"perm": np.zeros(nc), "signedperm": np.zeros(nc)}
+        for src, sg in elems:
+            pure = all(v > 0 for v in sg)
+            kindname = "perm" if pure else "signedperm"
+            mapidx = np.array([kidx[K.cfg_key(K.map_cols_cfg(c, src))] for c in cfgs])
+            appl = gram | pure
+            sgv = np.asarray(sg)
+            for kb, M in members.items():
+                kb2 = K.apply_cols(M, src, sg).tobytes()
                 if kb2 not in members:
                     raise RuntimeError("orbit not closed")  # harness self-inconsistency
                 moved = kb2 != kb
-                for cfg in cfgs:
-                    name = cfg["name"]
-                    if name not in K.GRAMIAN_BASED and not pure:
-                        continue
-                    cfg2 = K.map_cols_cfg(cfg, src)
-                    a, b = table.get((kb, K.cfg_key(cfg))), table.get((kb2, K.cfg_key(cfg2)))
-                    if a is None or b is None:
-                        continue  # the exception / nonfinite output was already reported
-                    tname = ("perm" if pure else "signedperm") + f":{src}{'' if pure else sg}"
-                    compare_transformed(ctx, cfg, preds[kb], M, a, b[0], K.apply_vec(a[0], src, sg), tname, True, moved)
+                ok = appl & valid[kb] & valid[kb2][mapidx]
+                if n:
+                    E = np.abs(X[kb2][mapidx] - X[kb][:, src] * sgv).max(axis=1)
+                else:
+                    E = np.zeros(nc)
+                ratio = E / tol[kb]
+                st = status[kb]
+                tight = ok & (st == 0)
+                for i in np.nonzero(ok & (st == 1))[0]:
+                    ctx.dropped += 1
+                    ctx.count(reason[kb][i])
+                ctx.count("comparisons", int(tight.sum()))
+                if moved:
+                    ctx.nontrivial += int((tight & nonzero[kb]).sum())
+                if tight.any():
+                    np.maximum(maxr[kindname], np.where(tight, np.nan_to_num(ratio, nan=np.inf), 0.0), out=maxr[kindname])
+                bad = (tight & ~(ratio <= 1.0)) | (ok & (st == 3))
+                for i in np.nonzero(bad)[0]:
+                    cfg = cfgs[i]
+                    tname = kindname + f":{src}{'' if pure else sg}"
+                    got, expect = X[kb2][mapidx[i]], X[kb][i][src] * sgv
+                    msg = f"{keys[i]} J={M.tolist()} T={tname}: A(TJ)={got.tolist()} T(A(J))={expect.tolist()}"
+                    if st[i] == 3:
+                        ctx.zero_direction("permutation" if pure else "orthogonal", float(E[i]), TOL / TOL_BY_AGG.get(cfg["name"], TOL) * tol[kb][i], msg)
+                    else:
+                        sig = f"{kindname}:{cfg['name']}"
+                        ctx.viol.append(dict(sig=sig, cls=sig, msg=(msg + f" err={E[i]:.3g} tol={tol[kb][i]:.3g}")[:700]))
+        for kindname, arr in maxr.items():
+            for i, cfg in enumerate(cfgs):
+                if arr[i] > 0 or kindname == "perm" or gram[i]:
+                    lab = f"{kindname}:{K.cfg_label(cfg)}"
+                    v = float(arr[i])
+                    if v > ctx.maxima.get(lab, -1.0):
+                        ctx.maxima[lab] = v
+                    ctx.margin = max(ctx.margin, v if math.isfinite(v) else 1e300)
 
 
 def _direct_transforms(n, with_group):
